@@ -34,6 +34,7 @@ func hs13Variants() []c02Variant {
 		{Name: "v13-direct", V13: true, SkipHV: true}, // no HelloRetryRequest at all
 		{Name: "v13-clientauth", V13: true, ClientAuth: true},
 		{Name: "v13-hrr-clientauth", V13: true, HRR: true, ClientAuth: true},
+		{Name: "v13-hrr-mtu300", V13: true, HRR: true, MTU: 300}, // small hellos, fragmented server flight
 		{Name: "v13-mtu300", V13: true, MTU: 300},
 		{Name: "v13-mtu120", V13: true, MTU: 120},
 	}
